@@ -34,8 +34,11 @@ type Opts struct {
 	Contexts      int  // maximal number of context parameters
 	ConvArg       bool // custom functions may take the converter as first argument
 	UseUnderlying bool // may use useUnderlyingTypeMethods
+	TargetsInConv bool   // target types live in the converter package, which is also the output package
+	SourcesInConv bool   // source types live in the converter package, output goes elsewhere
 	Format        string // "" (struct) | function | variable
 	PkgNames      bool   // unusual package names / paths for the type packages
+	LocalNamePkgs bool   // ... including names goverter uses for its own local identifiers
 	PtrHeavy      bool // favour pointer shapes incl. double pointers on either side
 	AlwaysErr     bool // every declared method returns error
 	ErrMismatch   bool // inject one fallible function although no method returns error
@@ -123,14 +126,29 @@ func New(rt *rapid.T, o Opts) *Builder {
 		p := &spec.Package{Key: "conv", Path: "conv", Name: "conv"}
 		b.A, b.B, b.C = p, p, p
 		b.Prog.Pkgs = []*spec.Package{p}
+	} else if o.SourcesInConv {
+		b.B = &spec.Package{Key: "b", Path: "b", Name: "b"}
+		b.C = &spec.Package{Key: "conv", Path: "conv", Name: "conv"}
+		b.A = b.C
+		b.Prog.Pkgs = []*spec.Package{b.B, b.C}
+	} else if o.TargetsInConv {
+		b.A = &spec.Package{Key: "a", Path: "a", Name: "a"}
+		b.C = &spec.Package{Key: "conv", Path: "conv", Name: "conv"}
+		b.B = b.C
+		b.Prog.Pkgs = []*spec.Package{b.A, b.C}
 	} else {
 		b.A = &spec.Package{Key: "a", Path: "a", Name: "a"}
 		b.B = &spec.Package{Key: "b", Path: "b", Name: "b"}
 		b.C = &spec.Package{Key: "conv", Path: "conv", Name: "conv"}
 		b.Prog.Pkgs = []*spec.Package{b.A, b.B, b.C}
 	}
-	if o.PkgNames && !o.SamePkg {
+	if o.PkgNames && !o.SamePkg && !o.TargetsInConv && !o.SourcesInConv {
 		names := []struct{ path, name string }{{"fmt", "fmt"}, {"model/v1", "model"}, {"generated", "generated"}, {"errors", "errors"}, {"api-types", "apitypes"}, {"x/strings", "strings"}, {"b2", "b2"}}
+		if o.LocalNamePkgs {
+			for _, n := range []string{"source", "c", "i", "key", "value", "target", "context", "err"} {
+				names = append(names, struct{ path, name string }{n, n})
+			}
+		}
 		pa := names[rapid.IntRange(0, len(names)-1).Draw(rt, "pkg-a")]
 		pb := names[rapid.IntRange(0, len(names)-1).Draw(rt, "pkg-b")]
 		if pa.path != pb.path {
@@ -179,7 +197,7 @@ func New(rt *rapid.T, o Opts) *Builder {
 			b.Ctx = append(b.Ctx, CtxParam{Name: fmt.Sprintf("ctx%c", 'A'+i), T: ct})
 		}
 	}
-	if o.SamePkg {
+	if o.SamePkg || o.TargetsInConv {
 		b.Conv.OutPkg = "conv"
 		if o.Format != "variable" {
 			b.SC.Doc = append(b.SC.Doc, "output:file ./generated.go", "output:package example.com/m/conv")
@@ -1123,6 +1141,11 @@ func (b *Builder) fields(depth int, own *model.Method, sd *spec.TypeDecl) ([]spe
 			s, t := b.leafBasic()
 			fs = append(fs, spec.F(nm, s))
 			ft = append(ft, spec.F(nm, t))
+			if b.O.TargetsInConv && !b.O.SamePkg {
+				// the target field is accessible (output package), the source field of package a is not
+				b.label("unexported-source-other-package")
+				break
+			}
 			if !b.O.SamePkg {
 				switch {
 				case own != nil && b.coin("unexported-how"):
